@@ -83,9 +83,15 @@ fn parse_props(text: String) -> String {
 fn completion_dump() -> String {
     use ide::analysis::AnalysisHost;
     // labels offered by the real Analysis::completion in the four contexts
-    let cases: [(&str, &str, Option<&str>); 5] = [
+    // the `!` contexts: at the end of a value, directly in front of existing letters (the `!`
+    // and the word lex as ONE token), and nested inside another operator's arguments
+    let cases: [(&str, &str, Option<&str>); 9] = [
         ("bang", "class Foo<int a = !$", Some("!")),
         ("bang_base", "class Foo<int a = !$", None),
+        ("bang2", "class Foo<int a = !$size(a)>;", Some("!")),
+        ("bang2_base", "class Foo<int a = !$size(a)>;", None),
+        ("bang3", "def X { int a = !add(1, !$mul(2, 3)); }", Some("!")),
+        ("bang3_base", "def X { int a = !add(1, !$mul(2, 3)); }", None),
         ("toplevel", "c$", None),
         ("type", "class Foo<i$", None),
         ("value", "class Foo<int a = t$", None),
